@@ -56,6 +56,8 @@ def check(run):
     fresh(R)
     closure(R)
     session(R)
+    from . import C05
+    C05.awaitables_fresh(R, RID='C17.closure')     # read requests are per read, not module / parser-lifetime objects
 
 
 def _is_fresh_state(R, ctx, v):
